@@ -500,3 +500,35 @@ Lemma full_tail_repaired_run :
   exists s', run (mk_params 13 3) (init (mk_params 13 3) 0%nat) (repeat AddFullInline 7 ++ [AddDone]) = Some s' /\
              done s' = zrange 0 13 /\ joined s'.
 Proof. eexists. split; [vm_compute; reflexivity|]. split; [vm_compute; reflexivity|]. split; reflexivity. Qed.
+
+(* ------------------------------------------------------------------ publish before count: the join breaks *)
+(* parallel_for(4) on 3 threads.  Thread 1 steals [0,2), splits off [0,1) and publishes the rest [1,2) before counting it;
+   thread 2 steals, runs and retires [1,2); thread 0 (the waiter) pops [2,4), splits off [2,3), publishes [3,4) uncounted,
+   runs and retires [2,3): m_RunningCount = 0 and AddTaskSetToPipe has returned, so WaitforTask exits — with index 0 held
+   unrun by thread 1, [3,4) still queued, and two increments outstanding. *)
+Definition pubfirst_schedule : list vlabel :=
+  [VPublish; VCount; VPublish; VCount; VL AddDone;
+   VL (Steal 1 0); VL (SplitRest 0); VRestPublish 0;
+   VL (Steal 2 1); VL (Exec 0); VL (Dec 0);
+   VL (PopOwn 0); VL (SplitRest 0); VRestPublish 0; VL (RestDone 0); VL (Exec 0); VL (Dec 0)].
+Lemma pubfirst_refuted :
+  exists s', run_pubfirst (mk_params 4 3) {| v_st := init (mk_params 4 3) 0%nat; v_late := 0%nat |} pubfirst_schedule = Some s' /\
+             joined (v_st s') /\ done (v_st s') = [1; 2] /\ v_late s' = 2%nat /\
+             ~ Permutation (done (v_st s')) (zrange 0 4).
+Proof.
+  eexists. split; [vm_compute; reflexivity|]. split; [split; reflexivity|]. split; [reflexivity|]. split; [reflexivity|].
+  cbn. intro H. apply Permutation_length in H. discriminate.
+Qed.
+
+(* the same loop and the same thread actions with "count, then publish" (AddWrite / RestWrite): the count is 3 at that
+   point, the waiter does not exit *)
+Definition countfirst_schedule : list label :=
+  [AddWrite; AddWrite; AddDone; Steal 1 0; SplitRest 0; RestWrite 0; Steal 2 1; Exec 0; Dec 0;
+   PopOwn 0; SplitRest 0; RestWrite 0; RestDone 0; Exec 0; Dec 0].
+Lemma countfirst_same_schedule :
+  exists s', run (mk_params 4 3) (init (mk_params 4 3) 0%nat) countfirst_schedule = Some s' /\
+             done s' = [1; 2] /\ rc s' = 2 /\ ~ joined s'.
+Proof.
+  eexists. split; [vm_compute; reflexivity|]. split; [reflexivity|]. split; [reflexivity|].
+  intros [_ H]. cbn in H. discriminate.
+Qed.
